@@ -443,18 +443,251 @@ pub fn run_case(case: &C05Case) -> CaseReport {
     rep
 }
 
+
+/// Long-run soak: one process, `n` registry operations on three signals against an in-child
+/// model. Short random histories never reach the states that only exist after tens of thousands
+/// of operations (id magnitude beyond 16 bits, many generations of the snapshot lock, a signal
+/// with hundreds of live actions, a table that has grown and shrunk many times).
+#[derive(Clone, Debug, Serialize, Deserialize)]
+pub struct SoakCase {
+    pub n: u32,
+    /// multiplier of the deterministic operation stream
+    pub stream: u32,
+    /// upper bound of live actions per signal in the churn phase
+    pub live_max: u16,
+    /// size of the "many live actions on one signal" phase
+    pub wide: u16,
+}
+
+fn soak_child(case: &SoakCase, fd: i32) {
+    crate::vsched::install();
+    ignore_sigpipe();
+    let sigs = [libc::SIGUSR1, libc::SIGUSR2, 40];
+    let mut live: Vec<Vec<(SigId, i32)>> = vec![Vec::new(); 3];
+    let mut dead: Vec<SigId> = Vec::new();
+    let mut seen: HashSet<SigId> = HashSet::new();
+    let mut x: u64 = 0x9E37_79B9_7F4A_7C15u64.wrapping_mul(case.stream as u64 + 1);
+    let mut next = move || {
+        // splitmix64: the operation stream is a pure function of the case value
+        x = x.wrapping_add(0x9E37_79B9_7F4A_7C15);
+        let mut z = x;
+        z = (z ^ (z >> 30)).wrapping_mul(0xBF58_476D_1CE4_E5B9);
+        z = (z ^ (z >> 27)).wrapping_mul(0x94D0_49BB_1331_11EB);
+        z ^ (z >> 31)
+    };
+    let mut tag: i32 = 0;
+    let mut bad: Option<String> = None;
+    let mut regs = 0u64;
+    let mut deliveries = 0u64;
+    let check_delivery = |si: usize, live: &Vec<Vec<(SigId, i32)>>| -> Option<String> {
+        let p0 = LOGPOS.load(Ordering::SeqCst);
+        if p0 + live[si].len() + 8 >= LOGN {
+            LOGPOS.store(0, Ordering::SeqCst);
+        }
+        let p0 = LOGPOS.load(Ordering::SeqCst);
+        let rc = unsafe { libc::raise(sigs[si]) };
+        let p1 = LOGPOS.load(Ordering::SeqCst).min(LOGN);
+        let ran: Vec<i32> = (p0..p1).map(|p| LOG[p].load(Ordering::SeqCst)).collect();
+        let want: Vec<i32> = live[si].iter().map(|x| x.1).collect();
+        if rc != 0 {
+            // real-time signals are queued; with the per-user quota of queued signals exhausted by
+            // other processes the kernel refuses them (EAGAIN): an environment problem, no verdict
+            return Some(format!("ENV|raise({}) failed: {}", sigs[si], std::io::Error::last_os_error()));
+        }
+        if ran != want {
+            let firstdiff = ran.iter().zip(&want).position(|(a, b)| a != b).unwrap_or(ran.len().min(want.len()));
+            Some(format!("a delivery of signal {} ran {} actions, the model has {} (first difference at position {}: ran {:?}, model {:?})", sigs[si], ran.len(), want.len(), firstdiff, ran.get(firstdiff), want.get(firstdiff)))
+        } else {
+            None
+        }
+    };
+    let mut i = 0u32;
+    while i < case.n && bad.is_none() {
+        i += 1;
+        let r = next();
+        let si = (r % 3) as usize;
+        let choice = (r >> 8) % 16;
+        let s = sigs[si];
+        if choice < 7 && live[si].len() < case.live_max as usize || live[si].is_empty() && choice < 12 {
+            tag = if tag >= 2_000_000_000 { 1 } else { tag + 1 };
+            let t = tag;
+            let id = unsafe {
+                if choice & 1 == 0 {
+                    signal_hook_registry::register(s, move || log_tag(t))
+                } else {
+                    signal_hook_registry::register_sigaction(s, move |info| log_tag(if info.si_signo == s { t } else { -t }))
+                }
+            };
+            match id {
+                Ok(id) => {
+                    regs += 1;
+                    if !seen.insert(id) {
+                        bad = Some(format!("C05/id-reuse|operation {}: registration number {} returned an id handed out before", i, regs));
+                    }
+                    live[si].push((id, t));
+                }
+                Err(e) => bad = Some(format!("C05/ret@register|operation {}: register failed: {}", i, e)),
+            }
+        } else if choice < 12 {
+            if !live[si].is_empty() {
+                let k = ((r >> 16) as usize) % live[si].len();
+                let (id, _) = live[si].remove(k);
+                if !signal_hook_registry::unregister(id) {
+                    bad = Some(format!("C05/ret@unregister|operation {}: unregister of a live id (position {} of {}) returned false after {} registrations", i, k, live[si].len() + 1, regs));
+                }
+                if dead.len() < 64 {
+                    dead.push(id);
+                } else {
+                    let d = ((r >> 24) as usize) % 64;
+                    dead[d] = id;
+                }
+            }
+        } else if choice == 12 {
+            if !dead.is_empty() {
+                let d = ((r >> 16) as usize) % dead.len();
+                if signal_hook_registry::unregister(dead[d]) {
+                    bad = Some(format!("C05/ret@unregister|operation {}: unregister of a stale id returned true after {} registrations", i, regs));
+                }
+            }
+        } else if choice == 13 && (r >> 40) % 64 == 0 {
+            #[allow(deprecated)]
+            let ret = signal_hook_registry::unregister_signal(s);
+            if ret != !live[si].is_empty() {
+                bad = Some(format!("C05/ret@unregister_signal|operation {}: returned {} with {} live actions", i, ret, live[si].len()));
+            }
+            for (id, _) in live[si].drain(..) {
+                if dead.len() < 64 {
+                    dead.push(id);
+                }
+            }
+        } else if (r >> 40) % 8 == 0 || i == case.n {
+            deliveries += 1;
+            if let Some(m) = check_delivery(si, &live) {
+                bad = Some(if m.starts_with("ENV|") { m } else { format!("C05/log-mismatch|operation {} (after {} registrations): {}", i, regs, m) });
+            }
+        }
+    }
+    // wide phase: one signal with `wide` live actions, removed from the middle outwards
+    if bad.is_none() && case.wide > 0 {
+        #[allow(deprecated)]
+        signal_hook_registry::unregister_signal(sigs[0]);
+        live[0].clear();
+        for _ in 0..case.wide {
+            tag += 1;
+            let t = tag;
+            match unsafe { signal_hook_registry::register(sigs[0], move || log_tag(t)) } {
+                Ok(id) => {
+                    if !seen.insert(id) {
+                        bad = Some("C05/id-reuse|wide phase: id handed out before".into());
+                    }
+                    live[0].push((id, t));
+                }
+                Err(e) => bad = Some(format!("C05/ret@register|wide phase: {}", e)),
+            }
+        }
+        let mut round = 0;
+        while bad.is_none() && !live[0].is_empty() {
+            deliveries += 1;
+            if let Some(m) = check_delivery(0, &live) {
+                bad = Some(if m.starts_with("ENV|") { m } else { format!("C05/log-mismatch|wide phase with {} live actions: {}", live[0].len(), m) });
+                break;
+            }
+            round += 1;
+            let take = (live[0].len() / 3).max(1);
+            for _ in 0..take {
+                let k = (next() as usize) % live[0].len();
+                let (id, _) = live[0].remove(k);
+                if !signal_hook_registry::unregister(id) {
+                    bad = Some(format!("C05/ret@unregister|wide phase round {}: unregister of a live id returned false", round));
+                }
+            }
+        }
+    }
+    // dispositions at the end
+    let handler = signal_hook_registry::verif::handler_addr();
+    for s in sigs.iter() {
+        let mut cur: libc::sigaction = unsafe { std::mem::zeroed() };
+        unsafe { libc::sigaction(*s, std::ptr::null(), &mut cur) };
+        const SA_RESTORER: libc::c_int = 0x0400_0000;
+        if bad.is_none() && (cur.sa_sigaction != handler || (cur.sa_flags & !SA_RESTORER) != (libc::SA_RESTART | libc::SA_SIGINFO)) {
+            bad = Some(format!("C05/disposition|after the soak signal {} no longer has the library's handler with SA_RESTART|SA_SIGINFO", s));
+        }
+    }
+    emit(fd, &json!({"k": "soak", "bad": bad, "ops": i, "registrations": regs, "deliveries": deliveries}));
+    emit(fd, &json!({"k": "done"}));
+}
+
+pub fn run_soak(case: &SoakCase) -> CaseReport {
+    let c2 = case.clone();
+    let (recs, end) = fork_stream(120_000, move |fd| soak_child(&c2, fd));
+    let mut rep = CaseReport::default();
+    rep.hash = hash_of(&format!("{:?}", case));
+    rep.sample = Some(json!({"case": case, "records": recs, "end": format!("{:?}", end)}));
+    rep.class("long-run-soak");
+    rep.nontrivial = true;
+    match &end {
+        End::Timeout => {
+            rep.inconclusive = Some("soak child timed out".into());
+            return rep;
+        }
+        End::Infra(e) => {
+            rep.inconclusive = Some(e.clone());
+            return rep;
+        }
+        End::Signaled(s) => {
+            rep.viol("C05/died", format!("long run: the process was killed by signal {} (last record {:?})", s, recs.last()));
+            return rep;
+        }
+        End::Exited(c) if *c != 0 || !recs.iter().any(|r| r["k"] == "done") => {
+            rep.viol("C05/died", format!("long run: the process exited with {} before the soak finished (a panic inside the registry?)", c));
+            return rep;
+        }
+        _ => {}
+    }
+    if let Some(r) = recs.iter().find(|r| r["k"] == "soak") {
+        rep.count("soak_operations", r["ops"].as_u64().unwrap_or(0));
+        rep.count("soak_registrations", r["registrations"].as_u64().unwrap_or(0));
+        if let Some(b) = r["bad"].as_str() {
+            let (key, msg) = b.split_once('|').unwrap_or(("C05/log-mismatch", b));
+            if key == "ENV" {
+                rep.inconclusive = Some(msg.to_string());
+            } else {
+                rep.viol(key, format!("long run: {}", msg));
+            }
+        }
+    }
+    rep
+}
+
+/// worker 0, every run: two soaks (different operation streams)
+fn extra(def: &PropDef, args: &WorkerArgs, report: &mut WorkerReport) {
+    let known = Known::load();
+    let f = if args.tier == Tier::Thorough { 12 } else { 1 };
+    // the first stream passes 65 536 registrations also in the quick tier
+    for (n, stream, live_max, wide) in [(200_000 * f, args.seed as u32 % 1000, 6u16, 700u16), (60_000 * f, args.seed as u32 % 1000 + 1000, 40, 0)] {
+        let case = SoakCase { n, stream, live_max, wide };
+        let rep = run_soak(&case);
+        if let Some(v) = report.absorb(def, &rep, &known) {
+            report.violation = Some((v.key, v.msg, serde_json::to_value(&C05Any::Soak(case)).unwrap()));
+            return;
+        }
+    }
+}
+
 /// Sequential histories with real signals, plus the concurrent registry programs of C01/C02
 /// judged by the same model (return values and delivered action lists).
 #[derive(Clone, Debug, Serialize, Deserialize)]
 pub enum C05Any {
     Seq(C05Case),
     Conc(crate::reg::RegCase),
+    Soak(SoakCase),
 }
 
 fn run_any(c: &C05Any) -> CaseReport {
     match c {
         C05Any::Seq(c) => run_case(c),
         C05Any::Conc(c) => crate::reg::run_case(c),
+        C05Any::Soak(c) => run_soak(c),
     }
 }
 
@@ -479,11 +712,11 @@ fn replay(v: &Value) -> CaseReport {
 pub static C05: PropDef = PropDef {
     id: "C05",
     prefixes: &["C05/"],
-    rule: "forkprobe: histories (quick <=40, thorough <=200 ops) over {register, register_sigaction, unregister(live or stale id), unregister_signal, deliver (real raise)} on 1-20 catchable signals including realtime numbers; reference model = per-signal ordered list of (id, tag) + set of taken-over signals; after every step: return value equals the model's, ids never repeat, a delivery runs exactly the model's list in order, every taken-over signal keeps the library handler with SA_RESTART|SA_SIGINFO, untouched signals keep their disposition; optional directed probe: a blocking read interrupted by a handled signal restarts. Non-trivial = >=2 signals, >=1 stale unregister and a delivery after a removal; distinct = the case value",
+    rule: "forkprobe: histories (quick <=40, thorough <=200 ops) over {register, register_sigaction, unregister(live or stale id), unregister_signal, deliver (real raise)} on 1-20 catchable signals including realtime numbers; reference model = per-signal ordered list of (id, tag) + set of taken-over signals; after every step: return value equals the model's, ids never repeat, a delivery runs exactly the model's list in order, every taken-over signal keeps the library handler with SA_RESTART|SA_SIGINFO, untouched signals keep their disposition; optional directed probe: a blocking read interrupted by a handled signal restarts. Worker 0 adds two long-run soaks per run (200 000 + 60 000 operations, 12x in the thorough tier, in one process on three signals incl. a real-time one against an in-process model: ids beyond 16 bits, churn with <=6 and <=40 live actions, then 700 live actions on one signal removed from the middle, deliveries compared with the model throughout). Non-trivial = >=2 signals, >=1 stale unregister and a delivery after a removal; distinct = the case value",
     assumptions: &["signals are raised only once taken over by the library"],
     cases: (1500, 40_000),
     shrink_iters: 300,
     worker,
     replay,
-    extra: None,
+    extra: Some(extra),
 };
